@@ -32,7 +32,9 @@ MANIFEST = {
     "engine": "Validate",
     "technique": "Lean 4 proof over a spec-tree model of validate (check_values + check_required + per-class parsers of init_args / list items "
                  "+ subcommand selection) + regenerated lenient-bracket table + differential correspondence on generated real parsers "
-                 "(action table, verdicts, argv option table) + mutation oracle over all tree positions and eight channels",
+                 "(action table, verdicts, argv option table) + mutation oracle over all tree positions and eight channels "
+                 "+ history oracle (one parser object, hundreds of parses; the same input on a new parser object) "
+                 "+ model of _positional_optionals (posLoop) with token-conservation theorems, regenerated source statements and a spy-based correspondence",
     "text": "Theorems in lean/Jap/Props/C06.lean prove, for all parser spec trees of any depth, all loaders and all configurations: "
             "(C06_no_unknown_partial) in an accepted configuration no key path that carries a leaf is undefined at its position (top level, groups, "
             "selected subcommand section, init_args of the selected class, list items); (C06_names_key_partial) ONE foreign key with a leaf inserted "
@@ -48,6 +50,17 @@ MANIFEST = {
             "the regenerated table of lenient_check brackets, the guards of validate/_parse_common/parse_known_args/parse_args are as audited. "
             "parse_known_args is probed from an external caller and from user code called back by the package (custom type function, __init__ run by instantiate_classes, "
             "function run by CLI(), link compute_fn): refused everywhere. "
+            "(C06_no_unknown_optdc, C06_required_optdc, C06_optdc_is_parser) arguments typed Optional[Dataclass] (Node.optGroup: one ActionTypeHint whose mapping value "
+            "is validated by the per-class parser of the dataclass) are in the spec trees: no-unknown and required hold through such values to any depth (reachO); "
+            "a mapping without leaves given for such an argument is invisible (C06_optdc_empty_counterexample, open finding C06-optdc-empty-mapping). "
+            "(C06_tokens_conserved, C06_tokens_one_action_each, C06_leftover_accept_iff, C06_too_many_tokens, C06_tokens_in_order, C06_tokens_off, "
+            "C06_tokens_missing_positional) for the loop of _positional_optionals (parse_optionals_as_positionals) and the leftover step of parse_args, for all action lists and "
+            "token lists: assigned tokens ++ reported rest = the leftover tokens (none dropped or duplicated), each optional takes at most one token in order of "
+            "addition, a command line passes only if every token was handed to an action, more tokens than optionals is rejected with every surplus token in the "
+            "reported rest; (C06_leftover_source) the statements of _positional_optionals, get_optionals_as_positionals_actions, supports_optionals_as_positionals, the "
+            "leftover step of parse_args, the dataclass branch of adapt_typehints (previous value passed in a NEW dict) and the closures check_required / check_values "
+            "are as transcribed (regenerated on every run). History: every case parses the valid configuration and all mutations on ONE parser object; afterwards the valid "
+            "configuration is parsed again through every channel (same verdict and values as on the new parser) and a sample of inputs is repeated on a new parser object. "
             "The full statements are false on the faithful model for four narrow classes, each a counterexample theorem and an open finding "
             "(leafless foreign mapping, non-selected subcommand section, dict_kwargs, scalar at a group key). The model is tied to the code on "
             "every run by comparing its action table (flatten) with the real parser's, its validate/parseArgv verdicts and named keys with the "
@@ -57,6 +70,11 @@ MANIFEST = {
                   "(no implicit class_path). Mutation theorems assume noClash (no subcommand named like an argument of its level). The order in "
                   "which several simultaneous faults are reported is not modelled (single-fault mutations; accept/reject only otherwise). "
                   "Inside nested per-class parsers a leafless foreign key in a list item is refused by the code (set_defaults) and accepted by the model. "
+                  "A mapping without leaves given for an Optional[Dataclass] argument is invisible in the model everywhere; inside init_args / list items the code reports "
+                  "the missing field (stricter; accepted difference). "
+                  "Mutation theorems (names_key / required_nulled / required_removed) do not walk through Optional[Dataclass] values (child = data there; covered by the "
+                  "correspondence and the oracle). Which tokens argparse leaves over (parse_known_args) is not modelled: posLoop starts from the leftover list the real "
+                  "parser hands to _positional_optionals (spied). "
                   "Append keys `k+` are modelled for lists of plain values; for lists of dataclasses / class instances and inside list items they are outside "
                   "(the code refuses or crashes there: stricter, not leniency).",
 }
@@ -68,6 +86,7 @@ F_DICTKW = "C06-dict-kwargs"
 F_SCALARGROUP = "C06-scalar-for-group"
 F_CPONLY = "C06-classpath-sibling-misnamed"
 F_METAKEY = "C06-meta-key-foreign"
+F_OPTEMPTY = "C06-optdc-empty-mapping"
 DUNDER = ["__comment__", "__pth__", "__zz9__"]                 # spelled like metadata, NOT in meta_keys: foreign keys like any other
 META = ["__path__", "__default_config__", "__orig__"]      # jsonargparse._namespace.meta_keys
 
@@ -89,10 +108,26 @@ def gen_dir():
     return _TMP
 
 
+class PKey(str):
+    """a key segment of a tree position that crosses into a per-class parser WITHOUT a segment of its own: the key of an
+    `Optional[Dataclass]` argument (the mapping stored there is validated by the parser of the dataclass).  It navigates like the
+    plain string and is written to JSON as the plain string."""
+
+
+def inner(path):
+    """the position lies inside a per-class parser: below `init_args`, a list item or an Optional[Dataclass] value"""
+    return any(isinstance(x, (int, PKey)) or x == "init_args" for x in path)
+
+
+def inner_item(path):
+    """... inside a list item or an Optional[Dataclass] value: validated with the value itself as `default` (set_defaults is stricter there)"""
+    return any(isinstance(x, (int, PKey)) for x in path)
+
+
 # ---------------------------------------------------------------- spec generation
 def has_req(node):
     k = node["k"]
-    if k in ("leaf", "class", "list"):
+    if k in ("leaf", "class", "list", "optdc"):
         return bool(node["req"])
     if k == "group":
         return any(has_req(n) for _, n in node["fields"])
@@ -133,8 +168,10 @@ class SpecGen:
                 node = gen_leaf(rng)
             elif r < 0.65:
                 node = self.group(ctx, depth)
-            elif r < 0.82:
+            elif r < 0.80:
                 node = self.classarg(depth, ctx)
+            elif r < 0.89:
+                node = self.optdc(depth, ctx)
             else:
                 node = self.listof(depth)
             out.append([name, node])
@@ -177,6 +214,20 @@ class SpecGen:
             node["via"] = "subclass_group"
         return node
 
+    def optdc(self, depth, ctx):
+        """an argument typed `Optional[Dataclass]`: ONE ActionTypeHint (no group); a mapping given for it is validated by the per-class parser
+        of the dataclass.  In a signature (`ctx` sig) the parameter is `Optional[DC] = None` (an Optional parameter is never required);
+        declared with add_argument it may be required."""
+        rng = self.rng
+        # (every check of such a value builds a per-class parser: mostly flat dataclasses, sometimes nested ones, to keep the run time)
+        fields = self.fields("sig", depth + 1 if rng.random() < 0.25 else self.maxd, 1, 3)
+        if not any(n["k"] == "leaf" and n["req"] for _, n in fields):
+            # a mapping WITHOUT leaves given for the argument is invisible (open finding C06-optdc-empty-mapping): every generated value
+            # holds at least this leaf
+            used = {n for n, _ in fields}
+            fields.insert(0, [rng.choice([n for n in NAMES if n not in used]), {"k": "leaf", "ty": rng.choice(["int", "str"]), "req": True}])
+        return {"k": "optdc", "req": ctx != "sig" and rng.random() < 0.3, "cls": self.cls("OD"), "fields": fields}
+
     def listof(self, depth):
         rng = self.rng
         r = rng.random()
@@ -206,6 +257,8 @@ def ty_expr(node):
         return node["cls"]
     if k == "class":
         return node["base"] if node["req"] else "Optional[%s]" % node["base"]
+    if k == "optdc":
+        return "Optional[%s]" % node["cls"]
     if k == "list":
         it = node["item"]
         e = "List[%s]" % (it["base"] if it["k"] == "class" else ty_expr(it))
@@ -243,6 +296,12 @@ def emit_node(node, out):
             out.append(plain_class(cname, node["base"], cfs))
     elif k == "list":
         emit_node(node["item"], out)
+    elif k == "optdc":
+        emit_classes(node["fields"], out)
+        lines = ["@dataclass", "class %s:" % node["cls"]]
+        for name, n in node["fields"]:
+            lines.append("    %s: %s%s" % (name, ty_expr(n), default_code(n, True)))
+        out.append("\n".join(lines))
     elif k == "sub":
         for _, cfs in node["choices"]:
             emit_classes(cfs, out)
@@ -300,6 +359,8 @@ def py_type(node, mod):
     if k == "class":
         b = getattr(mod, node["base"])
         return b if node["req"] else Optional[b]
+    if k == "optdc":
+        return Optional[getattr(mod, node["cls"])]
     if k == "list":
         it = node["item"]
         t = List[getattr(mod, it["base"]) if it["k"] == "class" else py_type(it, mod)]
@@ -320,7 +381,7 @@ def add_fields(parser, fields, mod, prefix=""):
                 parser.add_argument(opt, type=py_type(node, mod), default=copy.deepcopy(node["def"]))
         elif k == "class" and node.get("via") == "subclass_group":
             parser.add_subclass_arguments(getattr(mod, node["base"]), prefix + name, required=bool(node["req"]))
-        elif k in ("class", "list"):
+        elif k in ("class", "list", "optdc"):
             if node["req"]:
                 parser.add_argument(opt, type=py_type(node, mod), required=True)
             else:
@@ -389,6 +450,11 @@ def gen_config(rng, fields, modname):
             if node["req"] or rng.random() < 0.6:
                 cfg[name] = gen_class_value(rng, node, modname)
             elif rng.random() < 0.1:
+                cfg[name] = None
+        elif k == "optdc":
+            if node["req"] or rng.random() < 0.85:
+                cfg[name] = gen_config(rng, node["fields"], modname)
+            elif rng.random() < 0.15:
                 cfg[name] = None
         elif k == "list":
             if node["req"] or rng.random() < 0.6:
@@ -489,7 +555,7 @@ def positions(fields, kvs, modname, path=(), nsect=0):
                 if cfs is not None:
                     yield from positions(cfs, v, modname, path + [k], nsect + 1)
                     req_below = [p for kind, p, ns in positions(cfs, v, modname, path + [k], nsect + 1)
-                                 if kind == "required" and ns == nsect + 1 and all(isinstance(x, str) and x != "init_args" for x in p[len(path):])]
+                                 if kind == "required" and ns == nsect + 1 and not inner(p[len(path):])]
                     # a required subcommand of the section's own parser is also "a required key below"
                     req_below += [p + [d] for kind, p, d in positions(cfs, v, modname, path + [k], nsect + 1) if kind == "nosub" and p == path + [k]]
                     if req_below and isinstance(kvs.get(s[0]), str):
@@ -502,17 +568,23 @@ def positions(fields, kvs, modname, path=(), nsect=0):
         elif kind == "group":
             if isinstance(v, dict):
                 yield from positions(node["fields"], v, modname, path + [k], nsect)
-                req_below = [p for kd, p, _ in positions(node["fields"], v, modname, path + [k], nsect) if kd == "required" and all(isinstance(x, str) for x in p[len(path):]) and "init_args" not in p[len(path):]]
+                req_below = [p for kd, p, _ in positions(node["fields"], v, modname, path + [k], nsect) if kd == "required" and not inner(p[len(path):])]
                 if req_below:
                     # inside a per-class parser (init_args, list item) a null / non-mapping at a nested dataclass key raises AttributeError
                     # (open finding C06-item-nested-dataclass-nonmapping): only removal is generated there
-                    yield ("branch" if all(isinstance(x, str) and x != "init_args" for x in path) else "branch-remove-only", path + [k], req_below)
-                if all(isinstance(x, str) and x != "init_args" for x in path):
+                    yield ("branch" if not inner(path) else "branch-remove-only", path + [k], req_below)
+                if not inner(path):
                     yield ("group", path + [k], not has_req(node))
         elif kind == "class":
             if node["req"]:
                 yield ("required", path + [k], nsect)
             yield from class_positions(node, v, modname, path + [k])
+        elif kind == "optdc":
+            if node["req"]:
+                yield ("required", path + [k], nsect)
+            if isinstance(v, dict):
+                # the fields of the dataclass: positions of its own parser (keys relative to it)
+                yield from positions(node["fields"], v, modname, path + [PKey(k)], 99)
         elif kind == "list":
             if node["req"]:
                 yield ("required", path + [k], nsect)
@@ -614,7 +686,7 @@ def mutations_of(rng, fields, cfg, modname, full):
                                  "cls": extra, "variant": "dunder"})
             # the three meta keys themselves, written by the user with a plain value: invisible to validation (open finding C06-meta-key-foreign);
             # (inside a list item set_defaults refuses them: left out)
-            if extra == "normal" and not any(isinstance(x, int) for x in path) and (full or rng.random() < 0.25):
+            if extra == "normal" and not inner_item(path) and (full or rng.random() < 0.25):
                 muts.append({"kind": "foreign", "path": path, "key": rng.choice(META), "value": rng.choice([1, "w"]), "cls": extra, "variant": "meta"})
             # keys ending in "+" (append keys): `apply_appends` consumes `k+` ONLY for a list-typed argument `k`; every other key ending in "+"
             # - an unrelated name, a misspelt list key, "+" on an argument that is not a list - stays a foreign key
@@ -633,6 +705,15 @@ def mutations_of(rng, fields, cfg, modname, full):
         elif kind == "nosub":
             s = sub_of(level_fields(fields, cfg, modname, path))
             muts.append({"kind": "nosub", "path": path, "dest": extra, "choices": [c for c, _ in s[1]["choices"]]})
+    # removing the last leaf of the mapping given for an Optional[Dataclass] argument leaves a mapping without leaves, which is invisible
+    for m in muts:
+        if m["kind"] in ("remove", "remove-branch") and any(isinstance(x, PKey) for x in m["path"][:-1]):
+            last = max(i for i, x in enumerate(m["path"][:-1]) if isinstance(x, PKey))
+            try:
+                if any(leafless(get_at(mutate(cfg, m), m["path"][:i + 1])) for i, x in enumerate(m["path"][:last + 1]) if isinstance(x, PKey)):
+                    m["emptied"] = True
+            except (KeyError, IndexError, TypeError):
+                pass
     # a mutation must not change which subcommands are selected on the way to its position (implicit selection by section):
     # otherwise it is a different configuration, not a single fault
     return [m for m in muts if sections_still_selected(fields, mutate(cfg, m), modname, m["path"][:-1] if m.get("cls") == "unselected" else m["path"])]
@@ -690,7 +771,7 @@ def plus_mutations(rng, fields, cfg, modname, path, cls, full):
             foreign(t + "+", "plus-typo", rng.choice([[1], 3, [2, 3]]))
     # (inside an item of a list of dataclasses the item is validated with itself as `default` and set_defaults refuses `k+`
     #  - 'No action for key "qs+" to set its default' - so a legitimate append is REJECTED there: stricter, not this property; left out)
-    if isinstance(here, dict) and not any(isinstance(x, int) for x in path):
+    if isinstance(here, dict) and not inner_item(path):
         for n, nd in lf:
             # the legitimate append: accepted (the required check reads the base key: only when it is present or not required)
             if appendable_node(nd) and n + "+" not in here and (n in here or not nd["req"]) and (full or rng.random() < 0.5):
@@ -762,7 +843,7 @@ def sections_still_selected(fields, cfg, modname, path):
                 cur_f = dict((c, f) for c, f in s[1]["choices"])[k]
                 cur_v = cur_v.get(k)
                 i += 1
-            elif node["k"] == "group":
+            elif node["k"] in ("group", "optdc"):
                 cur_f, cur_v = node["fields"], cur_v.get(k)
                 i += 1
             elif node["k"] == "class":
@@ -809,7 +890,7 @@ def level_fields(fields, cfg, modname, path):
             cur_v = cur_v[k]
             i += 1
             continue
-        if node["k"] == "group":
+        if node["k"] in ("group", "optdc"):
             cur_f, cur_v = node["fields"], cur_v[k]
             i += 1
         elif node["k"] == "class":
@@ -877,7 +958,7 @@ def render_argv(rng, fields, kvs, prefix=""):
             args.append("%s=%s" % (opt, leaf_txt(v) if not isinstance(v, (dict, list)) else jtxt(v)))
             continue
         kind = node["k"]
-        if v is None and kind in ("leaf", "class", "list") and not (kind == "leaf" and node["ty"] == "optInt"):
+        if v is None and kind in ("leaf", "class", "list", "optdc") and not (kind == "leaf" and node["ty"] == "optInt"):
             continue          # `--k=null` is a type error for a non-Optional argument on the command line: leave it out
         if kind == "leaf":
             args.append("%s=%s" % (opt, leaf_txt(v)))
@@ -903,6 +984,14 @@ def render_argv(rng, fields, kvs, prefix=""):
                 for p, pv in v.get("init_args", {}).items():
                     mid = ".init_args." if rng.random() < 0.5 else "."
                     args.append("%s%s%s=%s" % (opt, mid, p, leaf_txt(pv) if not isinstance(pv, (dict, list)) else jtxt(pv)))
+            else:
+                args.append("%s=%s" % (opt, leaf_txt(v) if not isinstance(v, (dict, list)) else jtxt(v)))
+        elif kind == "optdc":
+            plain = isinstance(v, dict) and all(x in dict(node["fields"]) and not isinstance(y, (dict, list)) and y is not None for x, y in v.items())
+            if plain and v and rng.random() < 0.4:
+                # `--opt.field=value` is routed to the argument (parse_argv_item), one field at a time
+                for x, y in v.items():
+                    args.append("%s.%s=%s" % (opt, x, leaf_txt(y)))
             else:
                 args.append("%s=%s" % (opt, leaf_txt(v) if not isinstance(v, (dict, list)) else jtxt(v)))
         elif kind == "list":
@@ -953,7 +1042,7 @@ def render_env(rng, parser, fields, kvs, out, prefix=""):
                 continue
             raise Inexpressible()      # a variable for an undefined key is simply never read
         kind = node["k"]
-        if v is None and kind in ("leaf", "class", "list") and not (kind == "leaf" and node["ty"] == "optInt"):
+        if v is None and kind in ("leaf", "class", "list", "optdc") and not (kind == "leaf" and node["ty"] == "optInt"):
             continue
         if kind == "leaf":
             out[var(dest)] = leaf_txt(v)
@@ -968,7 +1057,7 @@ def render_env(rng, parser, fields, kvs, out, prefix=""):
                 out[var(dest)] = leaf_txt(v)
             else:
                 raise Inexpressible()
-        elif kind in ("class", "list"):
+        elif kind in ("class", "list", "optdc"):
             out[var(dest)] = leaf_txt(v) if not isinstance(v, (dict, list)) else jtxt(v)
     if s:
         sel = selected(fields, kvs)
@@ -1095,6 +1184,8 @@ def parser_relative(path):
     for s in path:
         if isinstance(s, int) or s == "init_args":
             out = []
+        elif isinstance(s, PKey):
+            out = []          # the key of an Optional[Dataclass] argument: what follows is relative to the parser of the dataclass
         else:
             out.append(s)
     return out
@@ -1131,6 +1222,8 @@ def wire_node(node, modname):
                 "classes": [[modname + "." + c, wire_fields(f, modname)] for c, f in node["classes"]]}
     if k == "list":
         return {"k": "list", "req": node["req"], "item": wire_node(node["item"], modname)}
+    if k == "optdc":
+        return {"k": "optdc", "req": node["req"], "fields": wire_fields(node["fields"], modname)}
     if k == "sub":
         return {"k": "sub", "req": node["req"], "choices": [[c, wire_fields(f, modname)] for c, f in node["choices"]]}
     raise MachineryError("bad node")
@@ -1169,6 +1262,19 @@ class Case:
 def new_case(rng, maxd):
     g = SpecGen(rng, maxd)
     fields = g.fields("parser", 0, 2, 5)
+    if rng.random() < 0.3:
+        # a signature-derived group (dataclass-typed argument / class arguments under a key) with an Optional[Dataclass] parameter: the one place
+        # where an ActionTypeHint of the LONG-LIVED parser carries the `sub_add_kwargs` of its signature - what an earlier parse leaves on the
+        # action is seen by every later parse of the same parser object
+        used = {n for n, _ in fields}
+        names = rng.sample([n for n in NAMES if n not in used], 3)
+        style = rng.choice(["dataclass", "class"])
+        inner_fields = [[names[1], gen_leaf(rng)], [names[2], g.optdc(1, "sig")]]
+        inner_fields.sort(key=lambda kv: 0 if has_req(kv[1]) else 1)
+        node = {"k": "group", "style": style, "whole": True, "fields": inner_fields, "cls": g.cls("DC" if style == "dataclass" else "PG")}
+        at = len(fields) - 1 if fields and fields[-1][1]["k"] == "sub" else len(fields)
+        fields.insert(at, [names[0], node])
+        fields[:at + 1] = sorted(fields[:at + 1], key=lambda kv: 0 if has_req(kv[1]) else 1)
     cfg = gen_config(rng, fields, MODPH)
     return Case(fields, cfg, "generated")
 
@@ -1218,6 +1324,8 @@ def finding_of(mut):
     """the open finding class a mutation falls into (by its signature alone), or None"""
     if mut is None:
         return None
+    if mut.get("emptied"):
+        return F_OPTEMPTY
     if mut["kind"] == "foreign":
         if leafless(mut["value"]):
             return F_LEAFLESS
@@ -1246,10 +1354,15 @@ def compare_model(mut, mres, res):
     """model verdict vs real (object channel) verdict; None = agree"""
     if mres.get("r") == "ok":
         if res[0] != "ok":
-            if mut is not None and mut["kind"] == "foreign" and leafless(mut["value"]) and res[0] == "err" and any(isinstance(x, int) for x in mut["path"]) \
+            if mut is not None and mut["kind"] == "foreign" and leafless(mut["value"]) and res[0] == "err" and inner_item(mut["path"]) \
                     and mentions_suffix(res[1], parser_relative(mut["path"] + [mut["key"]])):
                 # inside a list item that is validated with its own previous value as `default`, set_defaults refuses the key
                 # ("No action for key ... to set its default") even when it holds no leaf: the code is stricter than the model there
+                return None
+            if mut is not None and mut.get("emptied") and res[0] == "err" and mentions_suffix(res[1], parser_relative(mut["path"])):
+                # an Optional[Dataclass] value emptied by the removal, INSIDE the value of a class-typed argument (init_args) or a list item: there the
+                # mapping is not turned into a namespace first, `{}` reaches the parser of the dataclass and the missing field is reported - the code is
+                # stricter than the model (which treats a mapping without leaves as invisible everywhere)
                 return None
             return "model accepts, code rejects: %s" % (res[1:3],)
         return None
@@ -1303,7 +1416,7 @@ def table_of_spec(fields, prefix="", dotted=""):
         if k == "leaf":
             opts = ["--" + dest] + (["--" + dest + "+"] if node["ty"] in ("listInt", "optListInt") else [])
             out.append([prefix + dest, sorted(opts), "arg", bool(node["req"])])
-        elif k == "class":
+        elif k in ("class", "optdc"):
             out.append([prefix + dest, ["--" + dest], "arg", bool(node["req"])])
         elif k == "list":
             out.append([prefix + dest, sorted(["--" + dest, "--" + dest + "+"]), "arg", bool(node["req"])])
@@ -1392,12 +1505,18 @@ def process_case(ctx: Ctx, case: Case, muts, cfgs, mt, model, channels_per_mut, 
         # keep going: the mutations below look for a concrete input on which the difference shows
     all_muts = [None] + muts
     argv_cases = []
+    first, history = {}, []
+    fresh_p = 0.5 if ctx.search_boost > 1 else ctx.budget(0.07, 0.2)
     for mut, cfg, mres in zip(all_muts, cfgs, model):
         fid = finding_of(mut)
         # ---- object channel: model correspondence + oracle
         chans = ["object"] + (rng.sample(CHANNELS[1:], min(channels_per_mut, len(CHANNELS) - 1)) if channels_per_mut else [])
         if mut is None:
             chans = list(CHANNELS)
+        elif mut["kind"] in ("remove", "null", "remove-branch", "nosub") and "object_nodef" not in chans:
+            # without the defaults nothing completes the configuration: a required key made missing is caught by check_required (and its
+            # recursion into sections / per-class parsers) alone - always looked at for these mutations
+            chans.append("object_nodef")
         for ch in chans:
             if ch == "object_nodef" and mut is not None and (mut.get("cls") == "unselected" or mut["kind"] == "scalar-group"
                                                               or (mut["kind"] == "null" and "below" in mut)):
@@ -1408,6 +1527,11 @@ def process_case(ctx: Ctx, case: Case, muts, cfgs, mt, model, channels_per_mut, 
             if res is None:
                 stats["inexpressible"] += 1
                 continue
+            if mut is None:
+                first[ch] = (cfg, res)
+            elif rng.random() < fresh_p:
+                check_fresh(ctx, case, mut, ch, cfg, res, history, tmpdir, stats)
+            history.append([mut, ch])
             ctx.count()
             ctx.hist("channel", ch)
             ctx.hist("mutation", (mut["kind"] + ("/" + mut["cls"] if mut.get("cls") else "") + ("/" + mut["variant"] if mut.get("variant") else "")) if mut else "valid")
@@ -1429,12 +1553,13 @@ def process_case(ctx: Ctx, case: Case, muts, cfgs, mt, model, channels_per_mut, 
                 if mut is not None:
                     ctx.nontrivial(json.dumps([case.ph(case.fields), case.ph(mut), ch], sort_keys=True, default=repr))
                 continue
-            if fid is not None and ctx.is_open(fid) and (dev == "accepted" if fid != F_CPONLY else dev.startswith("the error does not name")):
+            if fid is not None and ctx.is_open(fid) and (fid == F_OPTEMPTY or (dev == "accepted" if fid != F_CPONLY else dev.startswith("the error does not name"))):
                 ctx.known(fid, known_text(fid, mut))
                 continue
             what = ("valid configuration: " if mut is None else "mutation %s at %s: " % (mut["kind"], ".".join(map(str, mut["path"])))) + dev
             ctx.violation("[%s] %s" % (ch, what), replay)
             stats["violations"] += 1
+    check_history(ctx, case, first, history, tmpdir, stats)
     return argv_cases
 
 
@@ -1467,9 +1592,11 @@ def check_argv_model(ctx, pending, stats):
         if m.get("r") == "ok" and res[0] != "ok":
             # `--k=null` for a non-Optional argument is a type error on the command line only; nulls are not rendered
             d = "model (argv) accepts, code rejects: %s" % (str(res[1])[:200],)
-            if mut is not None and mut["kind"] == "foreign" and leafless(mut["value"]) and res[0] == "err" and any(isinstance(x, int) for x in mut["path"]) \
+            if mut is not None and mut["kind"] == "foreign" and leafless(mut["value"]) and res[0] == "err" and inner_item(mut["path"]) \
                     and mentions_suffix(res[1], parser_relative(mut["path"] + [mut["key"]])):
                 d = None      # set_defaults of a nested list item refuses the leafless key: the code is stricter than the model (see compare_model)
+            if mut is not None and mut.get("emptied") and res[0] == "err" and mentions_suffix(res[1], parser_relative(mut["path"])):
+                d = None      # an emptied Optional[Dataclass] value inside init_args / a list item: reported by the code (see compare_model)
         elif m.get("r") == "err" and res[0] == "ok":
             d = "model (argv) rejects (%s %s), code accepts" % (m.get("kind"), m.get("rel", m.get("arg")))
         elif m.get("r") == "err" and m.get("kind") == "unrecognized" and res[0] == "err" and not (
@@ -1491,6 +1618,8 @@ def known_text(fid, mut):
         F_DICTKW: "keys under dict_kwargs of a class specification are accepted for a class without **kwargs",
         F_SCALARGROUP: "a non-mapping value at a group key whose fields are all optional is accepted (DESIGN section 7 row 8)",
         F_METAKEY: "a key named __path__ / __default_config__ / __orig__ written by the user (plain value) is accepted at any level: is_meta_key filters it out of get_sorted_keys",
+        F_OPTEMPTY: "a mapping without leaves given for an Optional[Dataclass] argument ({} after the only given field is removed) is invisible: accepted with the argument "
+                    "left at None although the dataclass has required fields (a required argument is reported as missing itself, the field is not named)",
         F_CPONLY: "concrete base type: {class_path: C, <foreign key>} is rejected with \"Key 'class_path' is not expected\" - the foreign key is not named",
     }[fid]
 
@@ -1613,6 +1742,276 @@ def check_known_args_callbacks(ctx: Ctx):
                           {"kind": "known_args_callback", "where": where})
 
 
+# ---------------------------------------------------------------- history independence (one parser object, many parses)
+def rerun_same(ch, parser, cfg, res, tmpdir):
+    """the SAME input once more (argv / env: the rendering that was used), on `parser`"""
+    if ch == "argv":
+        argv = list(res[2])
+        return run_real(lambda: parser.parse_args(argv))
+    if ch == "env":
+        env = dict(res[2])
+        return run_real(lambda: parser.parse_env(env))
+    if ch == "file":
+        return None
+    return run_channel(None, ch, parser, None, cfg, tmpdir)
+
+
+def verdict_of(res):
+    """what must not depend on the history: accept/reject and the accepted values (messages may legitimately differ in detail)"""
+    return [res[0], res[1] if res[0] == "ok" else None]
+
+
+def check_history(ctx, case, first, history, tmpdir, stats):
+    """required / unknown-key enforcement is a function of (declaration, input) alone: after the whole history of accepted and rejected
+    parses on ONE parser object, the valid configuration parsed again through every channel gives what it gave on the then-new parser"""
+    for ch, (cfg, res) in first.items():
+        again = rerun_same(ch, case.parser, cfg, res, tmpdir)
+        if again is None:
+            continue
+        ctx.count()
+        ctx.hist("history", "valid again after %d+ parses" % (len(history) // 20 * 20))
+        if verdict_of(again) != verdict_of(res):
+            ctx.violation("[%s] the same valid input gives a different result after %d other parses on the same parser object: first %s, then %s"
+                          % (ch, len(history), str(res[:2])[:300], str(again[:2])[:300]),
+                          {"kind": "history", "spec": case.fields, "cfg": case.ph(case.cfg), "history": case.ph(history[-60:]), "channel": ch,
+                           "input": case.ph(list(res[2:])) if len(res) > 2 else None})
+            stats["violations"] += 1
+
+
+def check_fresh(ctx, case, mut, ch, cfg, res, history, tmpdir, stats):
+    """the same (possibly faulty) input on a parser object that has never parsed anything: same verdict, same accepted values"""
+    fresh = build_parser(case.fields, case.mod)
+    again = rerun_same(ch, fresh, cfg, res, tmpdir)
+    if again is None:
+        return
+    ctx.count()
+    ctx.hist("history", "vs fresh parser")
+    if verdict_of(again) != verdict_of(res):
+        what = "valid configuration" if mut is None else "mutation %s at %s" % (mut["kind"], ".".join(map(str, mut["path"])))
+        ctx.violation("[%s] %s: the parser object that has parsed %d inputs before says %s, a new parser object of the same declaration says %s "
+                      "- the verdict depends on the history of the parser" % (ch, what, len(history), str(res[:2])[:300], str(again[:2])[:300]),
+                      {"kind": "history", "spec": case.fields, "cfg": case.ph(case.cfg), "history": case.ph(history[-60:]), "channel": ch,
+                       "mut": case.ph(mut) if mut else None, "input": case.ph(list(res[2:])) if len(res) > 2 else None})
+        stats["violations"] += 1
+
+
+# ---------------------------------------------------------------- command-line tokens beyond the positionals
+POS_TYPES = ["int", "str", "optInt"]
+
+
+def pos_spec(rng):
+    """a leaf parser: 0-2 positionals, 0-3 optionals (eligible for optionals-as-positionals), optionally actions that are NOT eligible
+    (a config-file option, an option with nargs='+', a dataclass group - whose members are eligible), optionally below a subcommand"""
+    npos = rng.choice([0, 1, 1, 2])
+    nopt = rng.randint(0, 3)
+    return {"pos": [rng.choice(["int", "str"]) for _ in range(npos)], "opt": [rng.choice(POS_TYPES) for _ in range(nopt)],
+            "cfgopt": rng.random() < 0.4, "many": rng.random() < 0.3, "sub": rng.random() < 0.35}
+
+
+def pos_build(spec):
+    from typing import List, Optional
+
+    from jsonargparse import ActionConfigFile, ArgumentParser
+
+    ty = {"int": int, "str": str, "optInt": Optional[int]}
+    leaf = ArgumentParser(exit_on_error=False)
+    if spec["cfgopt"]:
+        leaf.add_argument("--cfg", action=ActionConfigFile)
+    for i, t in enumerate(spec["pos"]):
+        leaf.add_argument("p%d" % i, type=ty[t])
+    if spec["many"]:
+        leaf.add_argument("--many", type=int, nargs="+", default=[])
+    for i, t in enumerate(spec["opt"]):
+        leaf.add_argument("--o%d" % i, type=ty[t], default=None if t == "optInt" else ({"int": 0, "str": "d"}[t]))
+    if not spec["sub"]:
+        return leaf, leaf, []
+    top = ArgumentParser(exit_on_error=False)
+    top.add_argument("--top", type=int, default=0)
+    sc = top.add_subcommands(required=True, dest="subcommand")
+    sc.add_subcommand("run", leaf)
+    return top, leaf, ["run"]
+
+
+def pos_argv(rng, spec, extra):
+    """(argv, the extra tokens, {dest: expected value} for the positionals)"""
+    toks, exp = [], {}
+    for i, t in enumerate(spec["pos"]):
+        v = str(11 + i) if t == "int" else "pv%d" % i
+        toks.append(v)
+        exp["p%d" % i] = int(v) if t == "int" else v
+    extras = []
+    for j in range(extra):
+        if j < len(spec["opt"]):
+            t = spec["opt"][j]
+            extras.append("tk%d" % j if t == "str" else str(100 + j))
+        else:
+            extras.append("LEFT%d" % j)
+    named = []
+    for i, t in enumerate(spec["opt"]):
+        if rng.random() < 0.3:
+            named.append("--o%d=%s" % (i, "nm%d" % i if t == "str" else str(900 + i)))
+    argv = toks + extras
+    for n in named:                       # `--k=v` options anywhere between the tokens
+        argv.insert(rng.randint(0, len(argv)), n)
+    return argv, extras, exp
+
+
+def typed_tok(t, tok):
+    return tok if t == "str" else int(tok)
+
+
+def check_positional_tokens(ctx: Ctx, stats):
+    """parse_args: every command-line token is consumed by exactly one action or reported ("Unrecognized arguments: ..."), with the setting
+    parse_optionals_as_positionals off and on; the real `_positional_optionals` is compared with the model's `posLoop` on what it was given"""
+    from jsonargparse import set_parsing_settings
+    from jsonargparse._common import get_optionals_as_positionals_actions, get_parsing_setting, supports_optionals_as_positionals
+
+    rng = ctx.rng
+    n = ctx.budget(45, 700) * (3 if ctx.search_boost > 1 else 1)
+    records, owners = [], []
+    before = get_parsing_setting("parse_optionals_as_positionals")
+    try:
+        for i in range(n):
+            spec = pos_spec(rng) if i >= 12 else {"pos": [["int"], [], ["str", "int"]][i % 3], "opt": [["int", "str"], ["str"], ["optInt", "int", "str"], []][i % 4],
+                                                  "cfgopt": i % 5 == 0, "many": i % 7 == 0, "sub": i % 2 == 1}
+            nopt = len(spec["opt"])
+            for setting in (True, False):
+                set_parsing_settings(parse_optionals_as_positionals=setting)
+                top, leaf, prefix = pos_build(spec)
+                for extra in sorted(set([0, nopt, nopt + 1, nopt + 2, rng.randint(0, nopt + 3)])):
+                    argv, extras, exp = pos_argv(rng, spec, extra)
+                    full = (["--top=3"] if prefix and rng.random() < 0.5 else []) + prefix + argv
+                    spy = []
+                    orig_po, orig_cvk = leaf._positional_optionals, leaf._check_value_key
+
+                    def po(cfg, unk, _leaf=leaf, _orig=orig_po, _spy=spy):
+                        rec = {"unk": list(unk), "enabled": bool(supports_optionals_as_positionals(_leaf)),
+                               "acts": [[a.dest, a.option_strings == [], cfg.get(a.dest) is not None]
+                                        for a in get_optionals_as_positionals_actions(_leaf, include_positionals=True)], "asg": [], "done": False}
+                        _spy.append(rec)
+                        out = _orig(cfg, unk)
+                        rec["rest"] = list(out[1])
+                        rec["done"] = True
+                        return out
+
+                    def cvk(action, value, key, cfg, _orig=orig_cvk, _spy=spy):
+                        if _spy and not _spy[-1]["done"]:
+                            _spy[-1]["asg"].append([action.dest, value])
+                        return _orig(action, value, key, cfg)
+
+                    leaf._positional_optionals, leaf._check_value_key = po, cvk
+                    try:
+                        res = run_real(lambda: top.parse_args(list(full)))
+                    finally:
+                        del leaf._positional_optionals, leaf._check_value_key
+                    ctx.count()
+                    ctx.hist("postokens", "setting %s, %s, extra tokens - optionals = %+d" % ("on" if setting else "off", "subcommand" if prefix else "leaf", extra - nopt))
+                    for rec in spy:
+                        if rec["done"]:
+                            records.append({"op": "posopt", "enabled": rec["enabled"], "acts": rec["acts"], "unk": rec["unk"]})
+                            owners.append((spec, setting, full, rec))
+                    dev = None
+                    capacity = nopt if setting else 0
+                    if extra <= capacity:
+                        if res[0] != "ok":
+                            dev = "a command line whose %d extra token(s) fit the %d optional(s) is rejected: %s" % (extra, nopt, str(res[1:3])[:200])
+                        else:
+                            got = res[1]
+                            for k in prefix:
+                                got = got.get(k, {}) if isinstance(got, dict) else {}
+                            for d, v in exp.items():
+                                if got.get(d) != v:
+                                    dev = "positional %s: expected %r, got %r" % (d, v, got.get(d))
+                            for j, tok in enumerate(extras):
+                                want = typed_tok(spec["opt"][j], tok)
+                                if got.get("o%d" % j) != want:
+                                    dev = "extra token %r (number %d) is not the value of the optional added %d-th (o%d = %r): the token was dropped or misplaced" % (tok, j, j, j, got.get("o%d" % j))
+                    else:
+                        beyond = extras[capacity:]
+                        if res[0] == "ok":
+                            dev = "%d extra token(s) for %d optional(s) (setting %s): accepted - the token(s) %r no action consumes are not reported" % (extra, nopt, setting, beyond)
+                        elif res[0] == "exc":
+                            dev = "rejected with %s instead of ArgumentError" % res[1]
+                        else:
+                            missing = [t for t in beyond if not delimited(res[1], t)]
+                            if missing:
+                                dev = "rejected, but the error does not name the unconsumed token(s) %r: %r" % (missing, res[1][:200])
+                    if dev is None:
+                        if extra > 0:
+                            ctx.nontrivial(json.dumps(["postokens", spec, setting, full]))
+                        continue
+                    ctx.violation("[argv tokens] parser %s, setting parse_optionals_as_positionals=%s, command line %r: %s" % (json.dumps(spec), setting, full, dev),
+                                  {"kind": "postokens", "spec": spec, "setting": setting, "argv": full, "extra": extra})
+                    stats["violations"] += 1
+    finally:
+        set_parsing_settings(parse_optionals_as_positionals=bool(before))
+    if not records:
+        return
+    try:
+        out = ctx.driver("Validate", records)
+    except MachineryError as ex:
+        if ctx.lean_ok:
+            raise
+        ctx.tie_break("correspondence Validate (posLoop) not runnable (model does not build)", str(ex)[:300])
+        return
+    for (spec, setting, full, rec), m in zip(owners, out):
+        ctx.count()
+        if m.get("asg") != [[d, v] for d, v in rec["asg"]] or m.get("rest") != rec["rest"]:
+            stats["disagree"] += 1
+            ctx.tie_break("correspondence Validate (posLoop vs _positional_optionals) disagrees: leftover %r, actions %r: code assigns %r and leaves %r, model assigns %r and leaves %r"
+                          % (rec["unk"], rec["acts"], rec["asg"], rec["rest"], m.get("asg"), m.get("rest")),
+                          json.dumps({"spec": spec, "setting": setting, "argv": full, "model": m, "real": rec}, default=repr)[:1800])
+
+
+def replay_postokens(r):
+    from jsonargparse import set_parsing_settings
+    from jsonargparse._common import get_parsing_setting
+
+    before = get_parsing_setting("parse_optionals_as_positionals")
+    try:
+        set_parsing_settings(parse_optionals_as_positionals=bool(r["setting"]))
+        top, leaf, prefix = pos_build(r["spec"])
+        res = run_real(lambda: top.parse_args(list(r["argv"])))
+    finally:
+        set_parsing_settings(parse_optionals_as_positionals=bool(before))
+    nopt = len(r["spec"]["opt"])
+    capacity = nopt if r["setting"] else 0
+    print("parser:", json.dumps(r["spec"]), "| parse_optionals_as_positionals =", r["setting"])
+    print("command line:", r["argv"], "->", res[:2])
+    tokens = [a for a in r["argv"] if not a.startswith("--") and a != "run"][len(r["spec"]["pos"]):]
+    if r["extra"] > capacity:
+        beyond = tokens[capacity:]
+        bad = res[0] != "err" or any(not delimited(res[1], t) for t in beyond)
+        print("tokens no action can consume:", beyond, "-> reported" if not bad else "-> NOT all reported")
+        return 1 if bad else 0
+    if res[0] != "ok":
+        return 1
+    got = res[1]
+    for k in prefix:
+        got = got.get(k, {})
+    bad = [t for j, t in enumerate(tokens) if got.get("o%d" % j) != typed_tok(r["spec"]["opt"][j], t)]
+    print("tokens not found at their optional:", bad)
+    return 1 if bad else 0
+
+
+def optdc_places(fields, sig=False, acc=None):
+    """where a case has Optional[Dataclass] arguments: actions of the long-lived parser derived from a signature / added with add_argument, or only
+    inside per-class parsers (init_args, list items, other Optional[Dataclass] values), or nowhere"""
+    top = acc is None
+    acc = set() if top else acc
+    for _, n in fields:
+        k = n["k"]
+        if k == "optdc":
+            acc.add("signature-derived action" if sig else "add_argument action")
+            optdc_places(n["fields"], sig, set())      # below: per-class parser
+        elif k == "group":
+            optdc_places(n["fields"], sig or n["style"] in ("dataclass", "class"), acc)
+        elif k == "sub":
+            for _, cfs in n["choices"]:
+                optdc_places(cfs, False, acc)
+    return "+".join(sorted(acc)) if acc else "none at parser level"
+
+
 def load_corpus(ctx):
     from ..lib import corpus as corpus_mod
 
@@ -1625,15 +2024,17 @@ def run(ctx: Ctx):
                 "declaration styles, class-typed arguments (abstract base, 1-2 subclasses, nested parameters), lists of leaves/dataclasses/classes and "
                 "subcommands; one valid configuration per parser; every single-fault mutation (foreign key - an unrelated name, truncations of the defined sibling keys (proper string prefixes) and extensions of them - at every mapping position incl. next to "
                 "class_path, inside init_args, list items, sections; keys spelled __comment__ / __pth__ / __zz9__ (not in meta_keys: rejected) and the three meta keys (known finding) at every position; keys ending in '+' at every position: unrelated name+, misspelt list key+, '+' on an argument that is not a list (all to be rejected naming the key, either spelling) and the legitimate append on a list argument (to be accepted); required key removed / nulled; group or section holding required keys removed; "
-                "required subcommand removed) through channels {parse_object, parse_string json/yaml, parse_path/--cfg file, argv, environment "
-                "variables, environment config}; non-trivial = a (parser, mutation, channel) triple that the code rejects naming the key; distinct by canonical JSON")
+                "required subcommand removed; Optional[Dataclass] arguments (added with add_argument or as parameters of dataclass / class groups, nested) with the same mutations inside their values) through channels {parse_object, parse_string json/yaml, parse_path/--cfg file, argv, environment "
+                "variables, environment config}; non-trivial = a (parser, mutation, channel) triple that the code rejects naming the key; distinct by canonical JSON; "
+                "plus leaf parsers (0-2 positionals, 0-3 optionals, optionally below a subcommand) x parse_optionals_as_positionals on/off x 0..optionals+3 extra command-line tokens: "
+                "accepted iff the tokens fit, each at its optional, else every surplus token named")
     ctx.assumptions = [
         "base classes of class-typed arguments are abstract: a class specification without class_path is outside the generator",
         "several simultaneous faults: only accept/reject is compared (the order of reports follows set iteration in the code)",
         "argparse abbreviation matching is avoided: the foreign key name is not a prefix of any option",
         "values of typed leaves are of the declared type (typing itself is the subject of C02)",
     ]
-    ctx.lean_build(extractors=["lenient_brackets", "meta_key_filter"])
+    ctx.lean_build(extractors=["lenient_brackets", "meta_key_filter", "positional_optionals"])
     tmpdir = tempfile.mkdtemp(prefix="c06run_")
     atexit.register(shutil.rmtree, tmpdir, True)
     stats = {"inexpressible": 0, "disagree": 0, "violations": 0}
@@ -1649,6 +2050,7 @@ def run(ctx: Ctx):
             cases.append((new_case(ctx.rng, maxd), None))
         except Exception as ex:  # noqa: BLE001 - a generated parser that cannot be built is a harness problem
             raise MachineryError("generated parser could not be built: %r" % (ex,))
+    check_positional_tokens(ctx, stats)
     known_done = False
     done = 0
     chunk = ctx.budget(12, 20)
@@ -1666,6 +2068,7 @@ def run(ctx: Ctx):
                 typos = plus + ctx.rng.sample(other, min(len(other), 20 - len(plus)))
                 muts = typos + ctx.rng.sample(rest, min(len(rest), 44 - len(typos)))
             ctx.hist("mutations_per_case", min(len(muts) // 10 * 10, 100))
+            ctx.hist("optional_dataclass_arguments", optdc_places(case.fields))
             batch.append((case, muts, [case.cfg] + [mutate(case.cfg, m) for m in muts]))
         answers = model_batch(ctx, batch)            # one driver run per batch
         pending = []
@@ -1703,6 +2106,34 @@ def run(ctx: Ctx):
     ctx.extra["correspondence_disagreements"] = stats["disagree"]
 
 
+def replay_history(ctx: Ctx, r):
+    """one parser object: the valid configuration through every channel, the recorded history of inputs, then the input in question;
+    next to it a parser object that has parsed nothing"""
+    tmpdir = tempfile.mkdtemp(prefix="c06run_")
+    atexit.register(shutil.rmtree, tmpdir, True)
+    case = Case(r["spec"], r["cfg"], "replay")
+    for ch in CHANNELS:
+        run_channel(ctx.rng, ch, case.parser, case.fields, case.cfg, tmpdir)
+    for mut, ch in r.get("history") or []:
+        mut = rename_mod(mut, MODPH, case.modname) if mut else None
+        try:
+            run_channel(ctx.rng, ch, case.parser, case.fields, mutate(case.cfg, mut) if mut else case.cfg, tmpdir)
+        except Exception:  # noqa: BLE001 - a history entry that cannot be re-applied is skipped
+            pass
+    mut = rename_mod(r["mut"], MODPH, case.modname) if r.get("mut") else None
+    cfg = mutate(case.cfg, mut) if mut else case.cfg
+    ch = r["channel"]
+    inp = rename_mod(r.get("input"), MODPH, case.modname)
+    fake = ("x", None) + tuple(inp) if inp else ("x", None)
+    old = rerun_same(ch, case.parser, cfg, fake, tmpdir)
+    new = rerun_same(ch, build_parser(case.fields, case.mod), cfg, fake, tmpdir)
+    print("generated module:\n" + case.src)
+    print("input (%s):" % ch, json.dumps(case.ph(inp if inp else cfg), default=repr))
+    print("parser object with a history ->", old[:2] if old else None)
+    print("new parser object            ->", new[:2] if new else None)
+    return 1 if old is not None and new is not None and verdict_of(old) != verdict_of(new) else 0
+
+
 def replay(ctx: Ctx, body):
     repo_python_path()
     r = body["replay"]
@@ -1723,6 +2154,10 @@ def replay(ctx: Ctx, body):
         for where, outcome in out + problems:
             print("%-40s %s" % (where, outcome))
         return 1 if problems or any(o != "refused" for _, o in out) else 0
+    if r.get("kind") == "postokens":
+        return replay_postokens(r)
+    if r.get("kind") == "history":
+        return replay_history(ctx, r)
     if r.get("kind") != "oracle":
         print("nothing to replay (broken tie without a failing input):", json.dumps(r, default=repr)[:1500])
         return 1
